@@ -7,16 +7,17 @@
       digests coincides with equality of the data they must commit to ([Spec.effects],
       [Spec.sig_view]); same effects and different transactions give different auth commitments;
       the field's classification (effecting / authorising) is the one of [Spec.field_is_auth];
-    - [CV4Txid] / [CV4Mut]: v1-v4 txid is the SHA-256d of the serialisation (computed by the
-      harness with the sha2 crate) and single-field changes show up in exactly the digests ZIP
-      143/243 define to cover them.
+    - [CV4Txid] / [CV4Tx] / [CV4Mut]: v1-v4 txid is the SHA-256d of the serialisation (computed by
+      the harness with the sha2 crate); v3/v4 signature hashes equal the evaluation of the ZIP
+      143/243 trees ([ModelV4]); for a single-field mutation pair, equality of the signature hashes
+      coincides with equality of the views ZIP 143/243 define them to cover.
     [run_case] ties the model's node structure to the implementation's published component
     digests ([TxDigests]): leaf digests of header and transparent parts, and the root combined
     from the implementation's own component digests. *)
 From Coq Require Import String Uint63.
 From V.Lib Require Import Base Hex Blake2b.
 From V.Gen Require Import C04Consts.
-From V.C04 Require Import Model Spec.
+From V.C04 Require Import Model ModelV4 Spec SpecV4 DigEq.
 Local Open Scope N_scope.
 
 (** Byte strings are printed by the harness as a length and a list of 7-byte big-endian chunks in
@@ -43,15 +44,25 @@ Definition SA := Build_sapling.
 Definition OA := Build_oaction.
 Definition OB := Build_obundle.
 Definition TX := Build_tx.
+Definition TX4 := Build_tx4.
 
-Inductive sigobs := SG (ht : N) (idx : nat) (value : N) (script : bytes) (d : bytes).
+(** [script] = scriptPubKey of the coin, [code] = the script code handed to the signer (the redeem
+    script of a P2SH coin): ZIP 244 commits to the former and not to the latter. *)
+Inductive sigobs := SG (ht : N) (idx : nat) (value : N) (script : bytes) (code : bytes) (d : bytes).
 Inductive obs := OBS (txid auth shsig : bytes) (sigs : list sigobs).
+
+(** v3/v4 observations: txid, SHA-256d of the serialisation (harness, sha2 crate), shielded
+    sighash and transparent sighashes (the scriptPubKey is handed to the API as well; ZIP 143/243
+    do not commit to it). *)
+Inductive sig4obs := SG4 (ht : N) (idx : nat) (value : N) (script code : bytes) (d : bytes).
+Inductive obs4 := OBS4 (txid sha shsig : bytes) (sigs : list sig4obs).
 
 Inductive case :=
 | CTx (tag : N) (t : tx) (coins : list coin) (parts : list bytes) (txid auth shsig : bytes) (sigs : list sigobs)
 | CMut (field : N) (t t' : tx) (coins coins' : list coin) (o o' : obs)
 | CV4Txid (ver branch : N) (txid sha : bytes)
-| CV4Mut (field ver : N) (idx j n_out : nat) (txid txid' sha sha' : bytes) (sigs : list (N * bytes * bytes)).
+| CV4Tx (tag : N) (t : tx4) (o : obs4)
+| CV4Mut (field : N) (t t' : tx4) (o o' : obs4).
 
 Definition is_nil {A} (l : list A) : bool := match l with [] => true | _ => false end.
 Definition eval_opt (d : option dig) : option bytes := option_map eval d.
@@ -59,12 +70,12 @@ Definition eq_opt (d : option dig) (b : bytes) : bool :=
   match d with Some d => bytes_eqb (eval d) b | None => false end.
 
 Definition sig_ok (t : tx) (p : parts) (coins : list coin) (s : sigobs) : bool :=
-  match s with SG ht idx v sc d => eq_opt (sighash_from t p coins (Transp ht idx v sc)) d end.
+  match s with SG ht idx v sc _ d => eq_opt (sighash_from t p coins (Transp ht idx v sc)) d end.
 
 (** * The property on the implementation's outcome *)
 Definition sig_pair_ok (t t' : tx) (coins coins' : list coin) (s s' : sigobs) : bool :=
   match s, s' with
-  | SG ht idx v sc d, SG ht' idx' v' sc' d' =>
+  | SG ht idx v sc _ d, SG ht' idx' v' sc' _ d' =>
       Bool.eqb (bytes_eqb d d')
                (sview_eqb (sig_view t coins (Transp ht idx v sc)) (sig_view t' coins' (Transp ht' idx' v' sc')))
   end.
@@ -75,23 +86,68 @@ Fixpoint sig_pairs_ok (t t' : tx) (coins coins' : list coin) (l l' : list sigobs
   | _, _ => false
   end.
 
-Definition v4_sig_ok (f : N) (idx j n_out : nat) (s : N * bytes * bytes) : bool :=
-  match s with (k, a, b) => Bool.eqb (negb (bytes_eqb a b)) (v4_covers f k idx j n_out) end.
+Definition sig4_ok (t : tx4) (s : sig4obs) : bool :=
+  match s with SG4 ht idx v _ code d => eq_opt (sighash4_tree t (Transp4 ht idx v code)) d end.
+Definition digests4_ok (t : tx4) (o : obs4) : bool :=
+  match o with
+  | OBS4 txid sha shsig sigs =>
+      bytes_eqb txid sha && eq_opt (sighash4_tree t Shielded4) shsig && forallb (sig4_ok t) sigs
+  end.
+Definition sig4_pair_ok (t t' : tx4) (s s' : sig4obs) : bool :=
+  match s, s' with
+  | SG4 ht idx v _ code d, SG4 ht' idx' v' _ code' d' =>
+      Bool.eqb (bytes_eqb d d')
+               (oview4_eqb (view4_of t (Transp4 ht idx v code)) (view4_of t' (Transp4 ht' idx' v' code')))
+  end.
+Fixpoint sig4_pairs_ok (t t' : tx4) (l l' : list sig4obs) : bool :=
+  match l, l' with
+  | s :: r, s' :: r' => sig4_pair_ok t t' s s' && sig4_pairs_ok t t' r r'
+  | [], [] => true
+  | _, _ => false
+  end.
+Definition sig4_pair_run (t t' : tx4) (s s' : sig4obs) : bool :=
+  match s, s' with
+  | SG4 ht idx v _ code d, SG4 ht' idx' v' _ code' d' =>
+      Bool.eqb (bytes_eqb d d')
+               (odig_eqb (sighash4_tree t (Transp4 ht idx v code)) (sighash4_tree t' (Transp4 ht' idx' v' code')))
+  end.
+Fixpoint sig4_pairs_run (t t' : tx4) (l l' : list sig4obs) : bool :=
+  match l, l' with
+  | s :: r, s' :: r' => sig4_pair_run t t' s s' && sig4_pairs_run t t' r r'
+  | [], [] => true
+  | _, _ => false
+  end.
+(** a v3/v4 mutation either changes the transaction or (fields 90..) only the signing context *)
+Definition mut4_class_ok (f : N) (t t' : tx4) : bool := Bool.eqb (tx4_eqb t t') (field_is_context f).
+(** the signature-hash clauses of a v3/v4 mutation pair *)
+Definition mut4_sigs_ok (t t' : tx4) (o o' : obs4) : bool :=
+  match o, o' with
+  | OBS4 _ _ shsig sigs, OBS4 _ _ shsig' sigs' =>
+      Bool.eqb (bytes_eqb shsig shsig') (oview4_eqb (view4_of t Shielded4) (view4_of t' Shielded4))
+      && sig4_pairs_ok t t' sigs sigs'
+  end.
+
+(** the digests of one transaction against the evaluated trees (component digests evaluated once) *)
+Definition digests_ok (t : tx) (coins : list coin) (txid auth shsig : bytes) (sigs : list sigobs) : bool :=
+  let p := eval_parts (parts_of t) in
+  bytes_eqb (eval (txid_from t p)) txid
+  && bytes_eqb (eval (auth_tree t)) auth
+  && eq_opt (sighash_from t p coins Shielded) shsig
+  && forallb (sig_ok t p coins) sigs.
+
+(** the harness's label of a mutation is the specification's classification of what changed *)
+Definition mut_class_ok (f : N) (t t' : tx) : bool :=
+  if field_is_context f then tx_eqb t t'
+  else negb (tx_eqb t t') && Bool.eqb (effects_eqb t t') (field_is_auth (tx_ver t) f).
 
 Definition prop_case (c : case) : bool :=
   match c with
-  | CTx _ t coins _ txid auth shsig sigs =>
-      let p := eval_parts (parts_of t) in
-      bytes_eqb (eval (txid_from t p)) txid
-      && bytes_eqb (eval (auth_tree t)) auth
-      && eq_opt (sighash_from t p coins Shielded) shsig
-      && forallb (sig_ok t p coins) sigs
+  | CTx _ t coins _ txid auth shsig sigs => digests_ok t coins txid auth shsig sigs
   | CMut f t t' coins coins' (OBS txid auth shsig sigs) (OBS txid' auth' shsig' sigs') =>
       let same_eff := effects_eqb t t' in
       let same := tx_eqb t t' in
       (* the harness's field classification is the specification's *)
-      (if field_is_context f then same
-       else negb same && Bool.eqb same_eff (field_is_auth (tx_ver t) f))
+      mut_class_ok f t t'
       (* txid: equal exactly when the effecting data are equal *)
       && Bool.eqb (bytes_eqb txid txid') same_eff
       (* auth commitment: with equal effecting data, equal exactly when nothing changed *)
@@ -101,9 +157,13 @@ Definition prop_case (c : case) : bool :=
                   (sview_eqb (sig_view t coins Shielded) (sig_view t' coins' Shielded))
       && sig_pairs_ok t t' coins coins' sigs sigs'
   | CV4Txid _ _ txid sha => bytes_eqb txid sha
-  | CV4Mut f _ idx j n_out txid txid' sha sha' sigs =>
-      bytes_eqb txid sha && bytes_eqb txid' sha' && negb (bytes_eqb txid txid')
-      && forallb (v4_sig_ok f idx j n_out) sigs
+  | CV4Tx _ t o => digests4_ok t o
+  | CV4Mut f t t' (OBS4 txid sha shsig sigs as o) (OBS4 txid' sha' shsig' sigs' as o') =>
+      mut4_class_ok f t t'
+      (* the identifier is the SHA-256d of the serialisation and changes exactly with the transaction *)
+      && bytes_eqb txid sha && bytes_eqb txid' sha' && Bool.eqb (bytes_eqb txid txid') (tx4_eqb t t')
+      (* signature hashes: equal exactly when what ZIP 143/243 define them to cover is equal *)
+      && mut4_sigs_ok t t' o o'
   end.
 
 (** * Model versus the implementation's component digests *)
@@ -118,9 +178,22 @@ Definition impl_parts (t : tx) (l : list bytes) : parts :=
      pt_orc := val_or (part l 5) (orchard_txid_tree (orchard_fmt (tx_ver t)) None);
      pt_iron := val_or (part l 6) (orchard_txid_tree IronwoodV6 None) |}.
 
+Definition sig_pair_run (t t' : tx) (coins coins' : list coin) (s s' : sigobs) : bool :=
+  match s, s' with
+  | SG ht idx v sc _ d, SG ht' idx' v' sc' _ d' =>
+      Bool.eqb (bytes_eqb d d')
+               (odig_eqb (sighash_tree t coins (Transp ht idx v sc)) (sighash_tree t' coins' (Transp ht' idx' v' sc')))
+  end.
+Fixpoint sig_pairs_run (t t' : tx) (coins coins' : list coin) (l l' : list sigobs) : bool :=
+  match l, l' with
+  | s :: r, s' :: r' => sig_pair_run t t' coins coins' s s' && sig_pairs_run t t' coins coins' r r'
+  | [], [] => true
+  | _, _ => false
+  end.
+
 Definition run_case (c : case) : bool :=
   match c with
-  | CTx _ t coins l txid _ _ _ =>
+  | CTx _ t coins l txid auth shsig sigs =>
       bytes_eqb (eval (header_tree t)) (part l 0)
       && match tx_transp t with
          | None => is_nil (part l 1) && is_nil (part l 2) && is_nil (part l 3)
@@ -132,6 +205,17 @@ Definition run_case (c : case) : bool :=
       && Bool.eqb (is_nil (part l 5)) (match tx_orch t with None => true | Some _ => false end)
       && Bool.eqb (is_nil (part l 6)) (match tx_iron t with None => true | Some _ => false end)
       && bytes_eqb (eval (txid_from t (impl_parts t l))) txid
+      && digests_ok t coins txid auth shsig sigs
+  | CMut _ t t' coins coins' (OBS txid auth shsig sigs) (OBS txid' auth' shsig' sigs') =>
+      (* equality of the implementation's digests coincides with equality of the model's pre-images *)
+      Bool.eqb (bytes_eqb txid txid') (dig_eqb (txid_tree t) (txid_tree t'))
+      && Bool.eqb (bytes_eqb auth auth') (dig_eqb (auth_tree t) (auth_tree t'))
+      && Bool.eqb (bytes_eqb shsig shsig')
+                  (odig_eqb (sighash_tree t coins Shielded) (sighash_tree t' coins' Shielded))
+      && sig_pairs_run t t' coins coins' sigs sigs'
+  | CV4Mut _ t t' (OBS4 _ _ shsig sigs) (OBS4 _ _ shsig' sigs') =>
+      Bool.eqb (bytes_eqb shsig shsig') (odig_eqb (sighash4_tree t Shielded4) (sighash4_tree t' Shielded4))
+      && sig4_pairs_run t t' sigs sigs'
   | _ => true
   end.
 
@@ -148,5 +232,6 @@ Definition tag_case (c : case) : N :=
   | CTx tag t _ _ _ _ _ _ => 10 * tag + tshape t
   | CMut f t _ _ _ _ _ => (if is_v6 (tx_ver t) then 200 else 100) + f
   | CV4Txid v _ _ _ => 300 + v
-  | CV4Mut f v _ _ _ _ _ _ _ _ => 400 + 100 * (v - 3) + f
+  | CV4Tx tag t _ => 310 + 10 * tag + (if is_v4 (t4_ver t) then 1 else 0)
+  | CV4Mut f t _ _ _ => 400 + (if is_v4 (t4_ver t) then 100 else 0) + f
   end.
